@@ -45,7 +45,11 @@ const c07AuthorSchema = `{
     "conditions":{"type":"object","x-kubernetes-preserve-unknown-fields":true},
     "connectionDetails":{"type":"string"},
     "status":{"type":"object","x-kubernetes-preserve-unknown-fields":true},
-    "metadata":{"type":"object","x-kubernetes-preserve-unknown-fields":true}
+    "metadata":{"type":"object","x-kubernetes-preserve-unknown-fields":true},
+    "resourceref":{"type":"object","x-kubernetes-preserve-unknown-fields":true},
+    "compositionRefs":{"type":"object","x-kubernetes-preserve-unknown-fields":true},
+    "claim":{"type":"object","x-kubernetes-preserve-unknown-fields":true},
+    "writeConnectionSecretToRefs":{"type":"object","x-kubernetes-preserve-unknown-fields":true}
   }},
   "status":{"type":"object","properties":{
     "address":{"type":"string"},
@@ -53,13 +57,20 @@ const c07AuthorSchema = `{
     "atProvider":{"type":"object","x-kubernetes-preserve-unknown-fields":true},
     "resourceRef":{"type":"object","x-kubernetes-preserve-unknown-fields":true},
     "claimRef":{"type":"string"},
-    "compositionRef":{"type":"object","x-kubernetes-preserve-unknown-fields":true}
+    "compositionRef":{"type":"object","x-kubernetes-preserve-unknown-fields":true},
+    "Conditions":{"type":"object","x-kubernetes-preserve-unknown-fields":true},
+    "condition":{"type":"object","x-kubernetes-preserve-unknown-fields":true},
+    "connectionDetailsRef":{"type":"object","x-kubernetes-preserve-unknown-fields":true}
   }}
  }
 }`
 
-var c07UserKeys = []string{"conditions", "connectionDetails", "enabled", "metadata", "params", "region", "size", "status", "strict", "tags"}
-var c07UserStatus = []string{"address", "atProvider", "claimRef", "compositionRef", "replicas", "resourceRef"}
+// (the last four spec keys and last three status keys are case variants, prefixes and
+// extensions of machinery names of the SAME level)
+var c07UserKeys = []string{"conditions", "connectionDetails", "enabled", "metadata", "params", "region", "size", "status", "strict", "tags",
+	"resourceref", "compositionRefs", "claim", "writeConnectionSecretToRefs"}
+var c07UserStatus = []string{"address", "atProvider", "claimRef", "compositionRef", "replicas", "resourceRef",
+	"Conditions", "condition", "connectionDetailsRef"}
 
 type c07Gen struct {
 	structural *structuralschema.Structural
@@ -267,6 +278,9 @@ var c07MetaKeys = []string{
 	"kubectl.kubernetes.io/last-applied-configuration", "app.kubernetes.io/name", "kubernetes.io/arch", "foo.k8s.io/bar", "k8s.io", "xk8s.io/z", "kubernetes.io",
 	// not reserved
 	"example.org/kubernetes.io", "kubernetes.io.example.org/a", "team", "a/b/c", "k8s.io.x", "crossplane.io/paused", "argocd.argoproj.io/instance",
+	// identity of the reserved suffix: case, trailing separators, what follows the first "/"
+	"sub.k8s.io//x", "kubernetes.io/", // reserved
+	"K8s.io/x", "app.Kubernetes.IO/name", "/kubernetes.io", "kubernetes.io./x", "a/k8s.io", "k8s.iox/y", // not reserved
 }
 
 func c07Meta(r *Rng, pfx string, n int) map[string]string {
@@ -303,8 +317,10 @@ func c07XRRef(name string) map[string]any {
 	return map[string]any{"apiVersion": c07XRGVK.GroupVersion().String(), "kind": c07XRGVK.Kind, "name": name}
 }
 
-func c07ClaimRef(claimName string) map[string]any {
-	return map[string]any{"apiVersion": c07ClaimGVK.GroupVersion().String(), "kind": c07ClaimGVK.Kind, "name": claimName, "namespace": c07NS}
+func c07ClaimRef(claimName string) map[string]any { return c07ClaimRefNS(claimName, c07NS) }
+
+func c07ClaimRefNS(claimName, ns string) map[string]any {
+	return map[string]any{"apiVersion": c07ClaimGVK.GroupVersion().String(), "kind": c07ClaimGVK.Kind, "name": claimName, "namespace": ns}
 }
 
 // c07ClaimSpec draws a raw (unpruned) claim spec.
@@ -465,23 +481,66 @@ func (g *c07Gen) editOp(r *Rng) (c07Op, bool) {
 // c07PeerNames: the other claims of the XRD (no name is a prefix of another).
 var c07PeerNames = []string{"peer1-claim", "peer2-claim", "peer3-claim"}
 
+// c07OtherNS: a second namespace; a peer there may carry the SAME name as the main claim.
+const c07OtherNS = "team-b"
+
 // Scenario draws a main claim/XR pair with its history and, half of the time, one to
 // two (thorough: three) peer pairs of the same XRD with their own histories, plus a
-// random interleaving. Every pair comes from the same distribution.
+// random interleaving. Every pair comes from the same distribution. One peer in four
+// lives in another namespace, half of those under the main claim's own name.
 func (g *c07Gen) Scenario(r *Rng, tier string) (c07Scn, bool) {
 	s := c07Scn{UserKeys: c07UserKeys, UserStat: c07UserStatus}
 	var pruned bool
-	s.Claim, s.XR, s.Ops, pruned = g.pair(r, tier, c07ClaimName)
+	s.Claim, s.XR, s.Ops, pruned = g.pair(r, tier, c07ClaimName, c07NS)
+	// XR names in use or to be generated anywhere in the scenario (XRs are cluster scoped)
+	xrNames := map[string]bool{}
+	namesOf := func(x *c07Obj, ops []c07Op) []string {
+		var out []string
+		if x != nil {
+			out = append(out, x.Name)
+		}
+		for _, o := range ops {
+			if o.Op == "sync" {
+				out = append(out, o.Gen)
+			}
+		}
+		return out
+	}
+	for _, n := range namesOf(s.XR, s.Ops) {
+		xrNames[n] = true
+	}
 	if r.Chance(1, 2) {
 		n := r.Range(1, 2)
 		if tier == "thorough" {
 			n = r.Range(1, 3)
 		}
 		total := len(s.Ops)
+		sameNameTaken := false
 		for i := 0; i < n; i++ {
 			var pe c07Peer
 			var ch bool
-			pe.Claim, pe.XR, pe.Ops, ch = g.pair(r, tier, c07PeerNames[i])
+			name, ns := c07PeerNames[i], c07NS
+			if r.Chance(1, 4) {
+				ns = c07OtherNS
+				pe.NS = ns
+				if r.Bool() && !sameNameTaken {
+					name = c07ClaimName
+					sameNameTaken = true
+				}
+			}
+			for {
+				pe.Claim, pe.XR, pe.Ops, ch = g.pair(r, tier, name, ns)
+				clash := false
+				for _, n := range namesOf(pe.XR, pe.Ops) {
+					clash = clash || xrNames[n]
+				}
+				if !clash {
+					break
+				}
+			}
+			for _, n := range namesOf(pe.XR, pe.Ops) {
+				xrNames[n] = true
+			}
 			pruned = pruned || ch
 			total += len(pe.Ops)
 			s.Peers = append(s.Peers, pe)
@@ -497,8 +556,144 @@ func (g *c07Gen) Scenario(r *Rng, tier string) (c07Scn, bool) {
 	return c07Normalize(back), pruned
 }
 
+// ---------------------------------------------------------------- the world of a sync
+
+// c07XRObj: an XR as another replica of the claim controller (or a user) would create it
+// for this claim: bound to the claim, with its own machinery.
+func (g *c07Gen) createdXR(r *Rng, claimName, ns string) *c07Obj {
+	x := c07Obj{Name: "set-by-the-harness", Labels: map[string]string{"crossplane.io/claim-name": claimName, "crossplane.io/claim-namespace": ns}}
+	xs := map[string]any{"claimRef": c07ClaimRefNS(claimName, ns)}
+	if r.Bool() {
+		xs["resourceRefs"] = []any{map[string]any{"apiVersion": "nop.example.org/v1", "kind": "NopResource", "name": "xr-only-cd7"}}
+	}
+	if r.Bool() {
+		xs["writeConnectionSecretToRef"] = map[string]any{"name": "xr-only-secret7", "namespace": "crossplane-system"}
+	}
+	if r.Chance(1, 3) {
+		xs["compositionUpdatePolicy"] = Pick(r, c07Policies)
+	}
+	if r.Chance(1, 3) {
+		xs["compositionRevisionRef"] = c07SharedVal(r, "compositionRevisionRef", "xs-")
+	}
+	if r.Chance(1, 3) {
+		k := Pick(r, c07UserKeys)
+		xs[k] = c07UserVal(r, k, "xu-")
+	}
+	x.Spec = xs
+	if r.Bool() {
+		x.Annotations = map[string]string{"crossplane.io/external-name": "xr-ext7"}
+	}
+	if r.Bool() {
+		x.Status = map[string]any{"conditions": c07Conds(r, "xrs-", c07Time2), "address": "xus-7"}
+	}
+	return &x
+}
+
+func (g *c07Gen) act(r *Rng, k int, claimName, ns string) c07Act {
+	a := c07Act{K: k}
+	switch r.Intn(8) {
+	case 0, 1, 2: // a user edits the claim
+		op, _ := g.editOp(r)
+		a.Act = "editClaim"
+		a.SetSpec, a.DelSpec, a.SetLabels, a.DelLabels, a.SetAnn, a.DelAnn = op.SetSpec, op.DelSpec, op.SetLabels, op.DelLabels, op.SetAnn, op.DelAnn
+	case 3, 4, 5: // the XR controller (or a user) writes the XR
+		op := g.xrCtlOp(r)
+		a.Act = "xrCtl"
+		a.SetSpec, a.DelSpec, a.SetStatus, a.DelStatus, a.SetLabels, a.SetAnn = op.SetSpec, op.DelSpec, op.SetStatus, op.DelStatus, op.SetLabels, op.SetAnn
+		if r.Chance(1, 3) {
+			if a.SetAnn == nil {
+				a.SetAnn = map[string]string{}
+			}
+			a.SetAnn["crossplane.io/external-name"] = fmt.Sprintf("xr-ext%d", 4+r.Intn(3))
+		}
+	case 6:
+		a.Act = "deleteXR"
+	default:
+		a.Act = "createXR"
+		a.XR = g.createdXR(r, claimName, ns)
+	}
+	return a
+}
+
+// decorate gives the sync operations of one history a world: third-party writes between
+// the API calls, failing calls of every class, stale / missing cached reads.
+func (g *c07Gen) decorate(r *Rng, ops []c07Op, claimName, ns string) {
+	for i := range ops {
+		op := &ops[i]
+		switch op.Op {
+		case "sync":
+			if r.Chance(1, 4) {
+				for j, n := 0, r.Range(1, 2); j < n; j++ {
+					op.Acts = append(op.Acts, g.act(r, r.Intn(5), claimName, ns))
+				}
+				sortActs(op.Acts)
+			}
+			if r.Chance(1, 6) {
+				op.Inj = []c07Inj{{K: r.Intn(5), Class: Pick(r, c07ErrClasses)}}
+			}
+			if r.Chance(1, 6) && i > 0 {
+				op.LagCm = r.Range(1, 3)
+			}
+			if r.Chance(1, 5) {
+				if r.Chance(1, 3) {
+					op.MissXr = true
+				} else if i > 0 {
+					op.LagXr = r.Range(1, 3)
+				}
+			}
+			if op.Syncer == "csa" && r.Chance(1, 2) && (op.MissXr || op.LagXr > 0) {
+				op.GetCache = true
+			}
+		case "upgrade":
+			if r.Chance(1, 3) {
+				op.Inj = []c07Inj{{K: 0, Class: Pick(r, c07ErrClasses)}}
+			}
+		}
+	}
+}
+
+func sortActs(a []c07Act) {
+	for i := 1; i < len(a); i++ {
+		for j := i; j > 0 && a[j].K < a[j-1].K; j-- {
+			a[j], a[j-1] = a[j-1], a[j]
+		}
+	}
+}
+
+var c07ProbeManagers = []string{"crossplane", "apiextensions.crossplane.io/composite", "kubectl-edit", "provider-x"}
+
+// probeOp: the upgrader against 0..5 managers in a random order, the claim manager and
+// before-first-apply present or not, before-first-apply at any position.
+func (g *c07Gen) probeOp(r *Rng) c07Op {
+	var mf []string
+	for _, m := range c07ProbeManagers {
+		if r.Chance(1, 2) {
+			mf = append(mf, m)
+		}
+	}
+	if r.Chance(2, 3) {
+		mf = append(mf, "apiextensions.crossplane.io/claim")
+	}
+	if r.Chance(1, 2) {
+		mf = append(mf, "before-first-apply")
+	}
+	if len(mf) == 0 {
+		// an object of a real cluster always has at least one manager
+		mf = []string{"crossplane"}
+	}
+	out := make([]string, len(mf))
+	for i, j := range r.Perm(len(mf)) {
+		out[i] = mf[j]
+	}
+	op := c07Op{Op: "upgradeProbe", Mf: out}
+	if r.Chance(1, 3) {
+		op.Inj = []c07Inj{{K: 0, Class: Pick(r, c07ErrClasses)}}
+	}
+	return op
+}
+
 // pair draws one claim, its optional pre-existing XR and its history.
-func (g *c07Gen) pair(r *Rng, tier, claimName string) (c07Obj, *c07Obj, []c07Op, bool) {
+func (g *c07Gen) pair(r *Rng, tier, claimName, ns string) (c07Obj, *c07Obj, []c07Op, bool) {
 	var s c07Scn
 	pruned := false
 
@@ -550,7 +745,7 @@ func (g *c07Gen) pair(r *Rng, tier, claimName string) (c07Obj, *c07Obj, []c07Op,
 		}
 		if r.Chance(1, 2) {
 			x.Labels["crossplane.io/claim-name"] = claimName
-			x.Labels["crossplane.io/claim-namespace"] = c07NS
+			x.Labels["crossplane.io/claim-namespace"] = ns
 		}
 		if r.Chance(1, 4) {
 			for k, v := range c07Meta(r, "xl-", 1) {
@@ -569,7 +764,7 @@ func (g *c07Gen) pair(r *Rng, tier, claimName string) (c07Obj, *c07Obj, []c07Op,
 		}
 		xs := map[string]any{}
 		if r.Chance(4, 5) {
-			xs["claimRef"] = c07ClaimRef(claimName)
+			xs["claimRef"] = c07ClaimRefNS(claimName, ns)
 		}
 		if r.Chance(3, 4) {
 			xs["resourceRefs"] = []any{map[string]any{"apiVersion": "nop.example.org/v1", "kind": "NopResource", "name": "xr-only-cd0"}}
@@ -626,6 +821,17 @@ func (g *c07Gen) pair(r *Rng, tier, claimName string) (c07Obj, *c07Obj, []c07Op,
 		}
 		s.XR = &x
 		spec["resourceRef"] = c07XRRef(xrName)
+		if r.Chance(1, 8) {
+			// the reference was written under another version / kind of the XRD (the identity
+			// of a reference is apiVersion, kind and name, not the name alone)
+			ref := c07XRRef(xrName)
+			if r.Bool() {
+				ref["apiVersion"] = c07Group + "/v1alpha1"
+			} else {
+				ref["kind"] = "XThingOld"
+			}
+			spec["resourceRef"] = ref
+		}
 	case 4: // the claim references an XR that does not exist (any more)
 		spec["resourceRef"] = c07XRRef(c07GenName(r, claimName))
 	default: // first sync, nothing exists
@@ -690,6 +896,149 @@ func (g *c07Gen) pair(r *Rng, tier, claimName string) (c07Obj, *c07Obj, []c07Op,
 			s.Ops = append(s.Ops, c07Op{Op: "upgrade"})
 		}
 		s.Ops = append(s.Ops, c07Op{Op: "sync", Syncer: syncer(i), Gen: c07GenName(r, claimName)})
+		if r.Chance(1, 12) {
+			s.Ops = append(s.Ops, g.probeOp(r))
+		}
+	}
+	// one history in three runs in a world that is not quiet
+	if r.Chance(1, 3) {
+		g.decorate(r, s.Ops, claimName, ns)
 	}
 	return s.Claim, s.XR, s.Ops, pruned
+}
+
+// ---------------------------------------------------------------- the world, enumerated
+
+// c07WorldEnum: for both syncers, a first sync and a re-sync (XR with its own external
+// name, composed-resource references, secret reference, status; Manual or Automatic):
+//   (d) every API call position 0..4 x every error class;
+//   (b) every API call position 0..4 x every kind of third-party write before it;
+//   (c) a second sync whose cached reads lag 1..3 operations behind (across third-party
+//       writes and across the controller's own previous sync) or miss the XR, with the
+//       client-side Apply's Get answered by the live store or by that same cache;
+// each followed by a quiet sync (what a failed or disturbed sync leaves behind is synced
+// correctly afterwards).
+func c07WorldEnum(shard int, emit func(s c07Scn, cls string)) {
+	idx := 0
+	base := func(resync bool, pol string) (c07Obj, *c07Obj) {
+		xrName := c07ClaimName + "-we000"
+		spec := map[string]any{"region": "cu-eu", "params": map[string]any{"resourceRef": map[string]any{"name": "cu-nested"}},
+			"compositionRevisionRef": map[string]any{"name": "cu-rev1"}, "compositionUpdatePolicy": pol,
+			"writeConnectionSecretToRef": map[string]any{"name": "cm-only-secret"}, "compositeDeletePolicy": "Foreground"}
+		cm := c07Obj{Name: c07ClaimName, Labels: map[string]string{"team": "cl-0", "app.kubernetes.io/name": "cl-1"},
+			Annotations: map[string]string{"crossplane.io/external-name": "cu-ext", "example.org/note": "ca-0"},
+			Status: map[string]any{"conditions": []any{map[string]any{"type": "Ready", "status": "False", "reason": "cms-Ready", "lastTransitionTime": c07Time1}},
+				"connectionDetails": map[string]any{"lastPublishedTime": c07Time1}, "address": "cus-0"}}
+		if !resync {
+			cm.Spec = spec
+			return cm, nil
+		}
+		spec["resourceRef"] = c07XRRef(xrName)
+		cm.Spec = spec
+		x := c07Obj{Name: xrName, Labels: map[string]string{"crossplane.io/composite": xrName, "crossplane.io/claim-name": c07ClaimName, "crossplane.io/claim-namespace": c07NS},
+			Annotations: map[string]string{"crossplane.io/external-name": "xr-ext"},
+			Spec: map[string]any{"claimRef": c07ClaimRef(c07ClaimName), "region": "cu-eu", "compositionUpdatePolicy": pol,
+				"compositionRevisionRef": map[string]any{"name": "xs-rev1"}, "compositionRef": map[string]any{"name": "xs-comp"},
+				"resourceRefs":               []any{map[string]any{"apiVersion": "nop.example.org/v1", "kind": "NopResource", "name": "xr-only-cd0"}},
+				"writeConnectionSecretToRef": map[string]any{"name": "xr-only-secret", "namespace": "crossplane-system"}},
+			Status: map[string]any{"conditions": []any{map[string]any{"type": "Ready", "status": "True", "reason": "xrs-Ready", "lastTransitionTime": c07Time2}},
+				"connectionDetails": map[string]any{"lastPublishedTime": c07Time2}, "address": "xus-1"}}
+		return cm, &x
+	}
+	acts := func(k int) []c07Act {
+		return []c07Act{
+			{K: k, Act: "editClaim", SetSpec: map[string]any{"region": "cu-edited", "size": int64(7)}, SetLabels: map[string]string{"team": "cl-edited"}},
+			{K: k, Act: "xrCtl", SetSpec: map[string]any{"resourceRefs": []any{map[string]any{"apiVersion": "nop.example.org/v1", "kind": "NopResource", "name": "xr-only-cd9"}}, "compositionRevisionRef": map[string]any{"name": "xs-rev9"}},
+				SetStatus: map[string]any{"address": "xus-9"}, SetAnn: map[string]string{"crossplane.io/external-name": "xr-ext9"}},
+			{K: k, Act: "deleteXR"},
+			{K: k, Act: "createXR", XR: &c07Obj{Name: "x", Labels: map[string]string{"crossplane.io/claim-name": c07ClaimName, "crossplane.io/claim-namespace": c07NS},
+				Annotations: map[string]string{"crossplane.io/external-name": "xr-ext7"},
+				Spec: map[string]any{"claimRef": c07ClaimRef(c07ClaimName), "resourceRefs": []any{map[string]any{"apiVersion": "nop.example.org/v1", "kind": "NopResource", "name": "xr-only-cd7"}}},
+				Status: map[string]any{"address": "xus-7"}}},
+		}
+	}
+	out := func(cm c07Obj, xr *c07Obj, ops []c07Op, cls string) {
+		idx++
+		if idx%8 != shard {
+			return
+		}
+		s := c07Scn{UserKeys: c07UserKeys, UserStat: c07UserStatus, Claim: cm, XR: xr, Ops: ops}
+		b, _ := json.Marshal(s)
+		var back c07Scn
+		_ = json.Unmarshal(b, &back)
+		emit(c07Normalize(back), cls)
+	}
+	gen := c07ClaimName + "-we000"
+	for _, syncer := range []string{"ssa", "csa"} {
+		for _, resync := range []bool{false, true} {
+			for pi, pol := range c07Policies {
+				for k := 0; k < 5; k++ {
+					// (d)
+					for ci, class := range c07ErrClasses {
+						if (ci+k)%2 != pi { // each (k, class) under one of the two policies
+							continue
+						}
+						cm, xr := base(resync, pol)
+						out(cm, xr, []c07Op{{Op: "sync", Syncer: syncer, Gen: gen, Inj: []c07Inj{{K: k, Class: class}}}, {Op: "sync", Syncer: syncer, Gen: gen}}, "world-enum/inj")
+					}
+					// (b)
+					for _, a := range acts(k) {
+						cm, xr := base(resync, pol)
+						out(cm, xr, []c07Op{{Op: "sync", Syncer: syncer, Gen: gen, Acts: []c07Act{a}}, {Op: "sync", Syncer: syncer, Gen: gen}}, "world-enum/act")
+					}
+				}
+				// (c)
+				for lag := 0; lag <= 3; lag++ {
+					for _, v := range []c07Op{{LagCm: lag}, {LagXr: lag}, {LagCm: lag, LagXr: lag}, {MissXr: true, LagCm: lag}} {
+						if lag == 0 && !v.MissXr {
+							continue
+						}
+						for _, cache := range []bool{false, true} {
+							if cache && syncer == "ssa" {
+								continue
+							}
+							cm, xr := base(resync, pol)
+							v2 := v
+							v2.Op, v2.Syncer, v2.Gen, v2.GetCache = "sync", syncer, gen, cache
+							out(cm, xr, []c07Op{{Op: "sync", Syncer: syncer, Gen: gen},
+								{Op: "xrCtl", SetSpec: map[string]any{"compositionRevisionRef": map[string]any{"name": "xs-rev2"}, "compositionUpdatePolicy": c07Policies[1-pi]}, SetStatus: map[string]any{"address": "xus-2"}, SetAnn: map[string]string{"crossplane.io/external-name": "xr-ext2"}},
+								{Op: "editClaim", SetSpec: map[string]any{"region": "cu-edited"}, SetAnn: map[string]string{"example.org/note": "ca-1"}},
+								v2, {Op: "sync", Syncer: syncer, Gen: gen}}, "world-enum/view")
+						}
+					}
+				}
+			}
+		}
+	}
+	// (f) the upgrader against every order of {claim manager, before-first-apply, two others}
+	ms := []string{"apiextensions.crossplane.io/claim", "before-first-apply", "crossplane", "apiextensions.crossplane.io/composite"}
+	for mask := 1; mask < 16; mask++ {
+		var sub []string
+		for i, m := range ms {
+			if mask&(1<<i) != 0 {
+				sub = append(sub, m)
+			}
+		}
+		for rot := 0; rot < len(sub) || rot == 0; rot++ {
+			for _, rev := range []bool{false, true} {
+				mf := append(append([]string{}, sub[rot:]...), sub[:rot]...)
+				if rev {
+					for i, j := 0, len(mf)-1; i < j; i, j = i+1, j-1 {
+						mf[i], mf[j] = mf[j], mf[i]
+					}
+				}
+				for _, class := range append([]string{""}, c07ErrClasses...) {
+					if class != "" && (mask+rot)%3 != 0 {
+						continue
+					}
+					cm, xr := base(true, "Automatic")
+					op := c07Op{Op: "upgradeProbe", Mf: mf}
+					if class != "" {
+						op.Inj = []c07Inj{{K: 0, Class: class}}
+					}
+					out(cm, xr, []c07Op{op, {Op: "sync", Syncer: "ssa", Gen: gen}}, "world-enum/upgrader")
+				}
+			}
+		}
+	}
 }
